@@ -9,9 +9,22 @@ use std::io::{self, BufRead, Write};
 use std::panic::{self, AssertUnwindSafe};
 
 #[derive(Deserialize)]
+struct ModuleSpec {
+    name: String,
+    #[serde(default)]
+    imports: Vec<String>,
+    #[serde(default)]
+    classes: Vec<metatype::Class>,
+}
+
+#[derive(Deserialize)]
 struct Job {
     id: String,
+    #[serde(default)]
     classes: Vec<metatype::Class>,
+    /// further named modules (same class name may occur in several); subjects of the form "module/Class" are resolved there
+    #[serde(default)]
+    modules: Vec<ModuleSpec>,
     #[serde(default)]
     enums: Vec<metatype::Enum>,
     /// class names to query (may include names that are not classes)
@@ -60,6 +73,14 @@ fn run_job(job: Job) -> Value {
     module_data.extend(job.enums);
     let module_id = ModuleId::Named("vf");
     type_map.insert_module(module_id, module_data);
+    for m in job.modules {
+        let mut data = ModuleData::with_builtins();
+        for i in &m.imports {
+            data.import_module(ModuleId::Named(i));
+        }
+        data.extend(m.classes);
+        type_map.insert_module(ModuleId::Named(&m.name), data);
+    }
     let module = type_map.get_module(module_id).unwrap();
 
     let t_start = thread_cpu_ms();
@@ -80,7 +101,10 @@ fn run_job(job: Job) -> Value {
     let mut kinds = vec![];
     let mut classes: Vec<Option<Class>> = vec![];
     for n in &job.subjects {
-        let r = module.get_type(n);
+        let r = match n.split_once('/') {
+            Some((m, c)) => type_map.get_module(ModuleId::Named(m)).and_then(|ms| ms.get_type(c)),
+            None => module.get_type(n),
+        };
         let (k, c) = match r {
             Some(Ok(NamedType::Class(c))) => ("class", Some(c)),
             Some(Ok(NamedType::Enum(_))) => ("enum", None),
